@@ -52,9 +52,19 @@ pub mod embedded_io {
     /// one successful operation on the sink
     pub enum Ev { W(Seq<u8>), F }
 
-    pub trait Error: core::fmt::Debug {}
+    /// (the library does not look at error kinds; present so that code which starts to do so is still parsed)
+    #[derive(Debug, Clone, Copy, PartialEq, Eq)]
+    pub enum ErrorKind { Other, NotFound, PermissionDenied, ConnectionRefused, ConnectionReset, ConnectionAborted, NotConnected,
+        AddrInUse, AddrNotAvailable, BrokenPipe, AlreadyExists, InvalidInput, InvalidData, TimedOut, Interrupted, Unsupported,
+        OutOfMemory, WriteZero }
 
-    impl Error for core::convert::Infallible {}
+    pub trait Error: core::fmt::Debug {
+        fn kind(&self) -> ErrorKind;
+    }
+
+    impl Error for core::convert::Infallible {
+        fn kind(&self) -> ErrorKind { ErrorKind::Other }
+    }
 
     pub trait ErrorType {
         type Error: Error;
